@@ -74,7 +74,8 @@ type DItem struct {
 	WS    string `json:"ws,omitempty"`
 	// ws
 	Abstract   bool     `json:"abstract,omitempty"`
-	Ancestors  []string `json:"anc,omitempty"`
+	Ancestors  []string `json:"anc,omitempty"`        // ALL ancestors: the closure of IWorkspace.Ancestors() (sys.Workspace only when there is no other)
+	DirectAnc  []string `json:"direct_anc,omitempty"` // IWorkspace.Ancestors() as enumerated
 	Descriptor string   `json:"desc,omitempty"`
 	Used       []string `json:"used,omitempty"`
 	ACL        []DRule  `json:"acl,omitempty"`
@@ -299,7 +300,23 @@ func dumpType(t appdef.IType) (DItem, bool) {
 		it.WS = ""
 		it.Abstract = v.Abstract()
 		for _, a := range v.Ancestors() {
-			it.Ancestors = append(it.Ancestors, a.QName().String())
+			it.DirectAnc = append(it.DirectAnc, a.QName().String())
+		}
+		seen := map[string]bool{}
+		var walk func(w appdef.IWorkspace)
+		walk = func(w appdef.IWorkspace) {
+			for _, a := range w.Ancestors() {
+				if n := a.QName().String(); n != "sys.Workspace" && !seen[n] {
+					seen[n] = true
+					it.Ancestors = append(it.Ancestors, n)
+					walk(a)
+				}
+			}
+		}
+		walk(v)
+		sort.Strings(it.Ancestors)
+		if len(it.Ancestors) == 0 {
+			it.Ancestors = append([]string{}, it.DirectAnc...) // sys.Workspace, the default
 		}
 		it.Descriptor = qn(v.Descriptor())
 		for _, u := range v.UsedWorkspaces() {
